@@ -1,2 +1,37 @@
-(* placeholder until the theorems are integrated *)
-From SE Require Import Spec.MapperSpec.
+(* C13 - The mapping cache is invisible.
+   Model: Model/Mapper.v (get_mapping with abstract cache operations), Model/Cache.v.
+   Specification: Spec/MapperSpec.v (spec_run: the last loaded configuration answers). *)
+From SE Require Import Spec.MapperSpec Proofs.FsmProofs Proofs.MapperProofs.
+
+(* For EVERY sound cache - any replacement policy, any size - and for no cache at all, any
+   sequence of lookups and reloads yields exactly the outputs of the cache-free specification:
+   same rule, name, labels and matched flag; nothing cached under a previous configuration
+   survives a reload. *)
+Theorem C13_cache_invisible : forall uni_word re_match heur_bt re_compiles CS c_get c_add c_reset,
+  forall holds, cache_sound CS c_get c_add c_reset holds ->
+  forall (cache0 : option CS), (forall s, cache0 = Some s -> forall k v, ~ holds s k v) ->
+  forall ops, forallb valid_op ops = true ->
+  impl_run uni_word re_match heur_bt re_compiles CS c_get c_add c_reset (new_mapper CS cache0) ops
+  = spec_run uni_word re_match re_compiles None ops.
+Proof.
+  intros. eapply mapper_refines_spec_from_fsm; eauto using fsm_first_match_ok, fsm_most_specific_ok.
+Qed.
+Print Assumptions C13_cache_invisible.
+
+(* The shipped caches are sound: LRU (groupcache list semantics) for every capacity ... *)
+Theorem C13_lru_sound : stmt_lru_sound.
+Proof. exact lru_sound_ok. Qed.
+Print Assumptions C13_lru_sound.
+(* ... and random replacement for every capacity and every eviction choice. *)
+Theorem C13_rr_sound : stmt_rr_sound.
+Proof. exact rr_sound_ok. Qed.
+Print Assumptions C13_rr_sound.
+
+(* a metric name seen as one type never answers for another type *)
+Theorem C13_format_key_inj : stmt_format_key_inj.
+Proof. exact format_key_inj_ok. Qed.
+Print Assumptions C13_format_key_inj.
+
+Example C13_empty_lru_satisfies_premise :
+  forall k v, ~ lru_holds {| lru_max := 2; lru_items := [] |} k v.
+Proof. intros k v H. discriminate H. Qed.
